@@ -148,27 +148,33 @@ func RoutePatternMatch(path, pattern string, cfg ...Config) bool {
 		pattern = "/" + pattern
 	}
 
+	// the pattern is parsed in its own spelling: only its constant parts are matched without regard to case,
+	// constraints see their own text and the value as it was sent
+	patternParse := pattern
 	patternPretty := []byte(pattern)
+	detectionPath := path
 
 	// Case-sensitive routing, all to lowercase
 	if !config.CaseSensitive {
 		patternPretty = utils.ToLowerBytes(patternPretty)
-		path = utils.ToLower(path)
+		detectionPath = utils.ToLower(path)
 	}
 	// Strict routing, remove trailing slashes
 	if !config.StrictRouting && len(patternPretty) > 1 {
 		patternPretty = utils.TrimRight(patternPretty, '/')
+		patternParse = utils.TrimRight(patternParse, '/')
 	}
 	if !config.StrictRouting && len(path) > 1 {
 		path = utils.TrimRight(path, '/')
+		detectionPath = utils.TrimRight(detectionPath, '/')
 	}
 
 	parser, _ := routerParserPool.Get().(*routeParser) //nolint:errcheck // only contains routeParser
 	parser.reset()
-	parser.parseRoute(string(patternPretty))
+	parser.parseRouteFold(patternParse, !config.CaseSensitive)
 	defer routerParserPool.Put(parser)
 
-	if string(patternPretty) == "/" && path == "/" {
+	if string(patternPretty) == "/" && detectionPath == "/" {
 		return true
 		// '*' wildcard matches any path
 	} else if string(patternPretty) == "/*" {
@@ -177,12 +183,12 @@ func RoutePatternMatch(path, pattern string, cfg ...Config) bool {
 
 	// Does this route have parameters
 	if len(parser.params) > 0 {
-		return parser.getMatch(path, path, &ctxParams, false)
+		return parser.getMatch(detectionPath, path, &ctxParams, false)
 	}
 	// Check for a simple match
 	patternPretty = RemoveEscapeCharBytes(patternPretty)
 
-	return string(patternPretty) == path
+	return string(patternPretty) == detectionPath
 }
 
 func (parser *routeParser) reset() {
@@ -195,6 +201,13 @@ func (parser *routeParser) reset() {
 // parseRoute analyzes the route and divides it into segments for constant areas and parameters,
 // this information is needed later when assigning the requests to the declared routes
 func (parser *routeParser) parseRoute(pattern string, customConstraints ...CustomConstraint) {
+	parser.parseRouteFold(pattern, false, customConstraints...)
+}
+
+// parseRouteFold is parseRoute for case-insensitive routing when foldCase is set: the constant parts are lower-cased,
+// while parameter names and the text of constraints (regular expressions, datetime layouts, names of custom
+// constraints) keep their spelling.
+func (parser *routeParser) parseRouteFold(pattern string, foldCase bool, customConstraints ...CustomConstraint) { //nolint:revive // Accepting a bool param is fine here
 	var n int
 	var seg *routeSegment
 	for len(pattern) > 0 {
@@ -205,6 +218,9 @@ func (parser *routeParser) parseRoute(pattern string, customConstraints ...Custo
 			parser.params, parser.segs = append(parser.params, seg.ParamName), append(parser.segs, seg)
 		} else {
 			n, seg = parser.analyseConstantPart(pattern, nextParamPosition)
+			if foldCase {
+				seg.Const = utils.ToLower(seg.Const)
+			}
 			parser.segs = append(parser.segs, seg)
 		}
 		pattern = pattern[n:]
@@ -221,6 +237,13 @@ func (parser *routeParser) parseRoute(pattern string, customConstraints ...Custo
 func parseRoute(pattern string, customConstraints ...CustomConstraint) routeParser {
 	parser := routeParser{}
 	parser.parseRoute(pattern, customConstraints...)
+	return parser
+}
+
+// parseRouteFold is parseRoute with the constant parts lower-cased when foldCase is set
+func parseRouteFold(pattern string, foldCase bool, customConstraints ...CustomConstraint) routeParser { //nolint:revive // Accepting a bool param is fine here
+	parser := routeParser{}
+	parser.parseRouteFold(pattern, foldCase, customConstraints...)
 	return parser
 }
 
